@@ -193,7 +193,7 @@ impl Core {
     fn known_classes(&self, s: &Session, oi: &ObjInfo) -> Vec<&'static str> {
         let mut v = Vec::new();
         // the FDT itself is an object coded with the session's default OTI
-        if s.sp.oti.sch == Scheme::Raptor && (s.fdts.is_empty() || s.fdts.iter().any(|f| ks_of(&s.sp.oti, f.len).iter().any(|k| *k < 4))) {
+        if s.sp.oti.sch == Scheme::Raptor && (s.fdts.is_empty() || s.fdts.iter().any(|f| ks_of(&s.sp.oti, f.len).iter().any(|k| *k == 2 || *k == 3))) {
             v.push("C01:raptor-block-lt4");
         }
         if matches!(s.sp.oti.sch, Scheme::Rs | Scheme::RsUs) && s.sp.oti.p == 0 {
@@ -202,7 +202,7 @@ impl Core {
         if matches!(oi.oti.sch, Scheme::Rs | Scheme::RsUs) && oi.oti.p == 0 && oi.tl.unwrap_or(0) > 0 {
             v.push("C01:D21-rs-parity0");
         }
-        if oi.oti.sch == Scheme::Raptor && ks_of(&oi.oti, oi.tl.unwrap_or(0)).iter().any(|k| *k < 4) {
+        if oi.oti.sch == Scheme::Raptor && ks_of(&oi.oti, oi.tl.unwrap_or(0)).iter().any(|k| *k == 2 || *k == 3) {
             v.push("C01:raptor-block-lt4");
         }
         if (oi.p.src == "stream" || oi.p.src == "sparse" || oi.p.src == "file") && oi.p.cenc != "null" {
@@ -244,12 +244,6 @@ impl Core {
                 o.fail(
                     "C01:accepted-too-large",
                     &format!("object {} of transfer length {} accepted, scheme maximum {}", oi.idx, tl, scheme_max_tl(&oi.oti)),
-                );
-            }
-            if !too_large && oi.toi.is_none() {
-                o.fail(
-                    "C01:refused-valid",
-                    &format!("object {} of transfer length {} (max {}) refused: {:?}", oi.idx, tl, scheme_max_tl(&oi.oti), oi.add_err),
                 );
             }
             if oi.toi.is_none() && s.stream.iter().any(|d| d.toi != 0 && !s.objs.iter().any(|x| x.toi == Some(d.toi))) {
